@@ -594,4 +594,47 @@ theorem fsmRun_reach : ∀ (steps fuel : Nat) (st : St), ∃ st', Reach fuel st 
       | refl => exact Reach.step (Reach.refl st) h
       | step _ hs ih' => exact Reach.step ih' hs
 
+/-! ## stop on a running thread, restart -/
+
+/-- the state in which `rtr_fsm_start` enters its loop: CONNECTING by direct assignment (no state callback) -/
+def startState (st : St) : St := { st with c := { st.c with state := .connecting }, n := { st.n with threaded := true } }
+
+theorem fsmStart_first (steps fuel : Nat) (st : St) (hs : st.c.state ≠ .shutdown) :
+    fsmStart (steps + 1) fuel st = fsmRun steps fuel (stepConnecting (startState st)) := by
+  unfold fsmStart
+  rw [if_neg hs]
+  show fsmRun (steps + 1) fuel (startState st) = _
+  simp only [fsmRun]
+  rw [fsmStep_eq]
+  rfl
+
+/-- the first iteration of a run does not look at the first-PDU flag an earlier run has left -/
+theorem stepConnecting_forgets (st : St) (b : Bool) :
+    stepConnecting { st with c := { st.c with hasReceived := b } } = stepConnecting st := by
+  unfold stepConnecting clearReceived
+  rfl
+
+theorem stopFinish_ss (st : St) : (stopFinish st).ss.reqSession = true ∧ (stopFinish st).ss.lastUpdate = 0 ∧
+    (stopFinish st).ss.serial = 0 := ⟨rfl, rfl, rfl⟩
+
+theorem stopFinish_tbl (st : St) : (stopFinish st).t = st.t.purge := rfl
+
+/-- first iteration after `rtr_stop` + `rtr_start`: open, then RESET (which sends the Reset Query) -/
+theorem restart_step (s : St) (hr : s.ss.reqSession = true) (h0 : s.ss.lastUpdate = 0) :
+    stepConnecting (startState s) =
+      (if (trOpen (clearReceived (startState s))).1 = -1 then (trOpen (clearReceived (startState s))).2.change .errTransport
+       else (trOpen (clearReceived (startState s))).2.change .reset) := by
+  have hp : purgeOutdated (clearReceived (startState s)) = clearReceived (startState s) := by
+    unfold purgeOutdated
+    have : (clearReceived (startState s)).ss.lastUpdate = 0 := h0
+    rw [if_pos this]
+  unfold stepConnecting
+  rw [hp]
+  have o := trOpen_frame (clearReceived (startState s))
+  generalize trOpen (clearReceived (startState s)) = ro at o
+  obtain ⟨rc, st2⟩ := ro
+  simp only at o ⊢
+  have : st2.ss.reqSession = true := by rw [o.1]; exact hr
+  rw [this]; simp
+
 end Rtr.P
